@@ -115,7 +115,7 @@ def _build(tier):
     with ThreadPoolExecutor(max_workers=2) as ex:
         fd = ex.submit(core.compile_c, PROP, 'h_c15_dns', ['harness/C15/h_c15_dns.c'])
         fr = ex.submit(core.compile_c, PROP, 'h_c15_radius', ['harness/C15/h_c15_radius.c'],
-                       flags=['-I' + bdir, '-I' + os.path.join(core.VERIF, 'harness', PROP), '-DC15_HAVE_VECTORS'], libs=['-lm'])
+                       flags=['-I' + bdir, '-I' + os.path.join(core.VERIF, 'harness', PROP), '-DC15_HAVE_VECTORS'], libs=['-lm'], opt='-O2')
         return {'dns': fd.result(), 'radius': fr.result()}, nvec
 
 
